@@ -1,9 +1,11 @@
-From Coq Require Import List NArith Bool Lia.
+(* C16 — Python's csv.reader (default excel dialect: delimiter comma, quotechar double-quote, doublequote,
+   no escapechar, skipinitialspace off, non-strict) as the character state machine of Modules/_csv.c,
+   fed ONE line as the only element of the iterable (this is how parse_ob_csv_line calls it), and the
+   QUOTE_MINIMAL writer.  Model file: definitions only (proofs in IO/CsvProofs.v). *)
+From Coq Require Import List NArith Bool.
+From Outrank Require Import IO.Str.
 Import ListNotations.
 Open Scope N_scope.
-
-Definition ch := N.
-Definition COMMA : ch := 44. Definition QUOTE : ch := 34. Definition LF : ch := 10. Definition CR : ch := 13.
 
 Inductive st := StartRecord | StartField | InField | InQuoted | QuoteInQuoted | EatCRNL | Err.
 
@@ -12,7 +14,6 @@ Record pst := mk { state : st; pend : list ch (* reversed *); acc : list (list c
 Definition save (s : pst) (next : st) : pst := mk next [] (rev (pend s) :: acc s).
 Definition add (s : pst) (c : ch) (next : st) : pst := mk next (c :: pend s) (acc s).
 Definition goto (s : pst) (next : st) : pst := mk next (pend s) (acc s).
-Definition is_nl (c : ch) := (c =? LF) || (c =? CR).
 
 Definition start_field (s : pst) (c : option ch) : pst :=
   match c with
@@ -23,6 +24,7 @@ Definition start_field (s : pst) (c : option ch) : pst :=
               else add s c InField
   end.
 
+(* [None] is the end-of-line sentinel the reader feeds after the last character of the line *)
 Definition step (s : pst) (c : option ch) : pst :=
   match state s with
   | StartRecord => match c with
@@ -55,6 +57,8 @@ Definition step (s : pst) (c : option ch) : pst :=
 Definition run (s : pst) (l : list ch) : pst := fold_left (fun s c => step s (Some c)) l s.
 Definition init : pst := mk StartRecord [] [].
 
+(* list(csv.reader([line])).pop() : None = csv.Error.  When the only line ends inside a quoted field
+   the iterator runs out and the pending field is flushed. *)
 Definition parse (line : list ch) : option (list (list ch)) :=
   let s := step (run init line) None in
   match state s with
@@ -64,7 +68,7 @@ Definition parse (line : list ch) : option (list (list ch)) :=
   | _ => Some (rev (match pend s with [] => acc s | _ => rev (pend s) :: acc s end))
   end.
 
-(* writer, QUOTE_MINIMAL *)
+(* writer, QUOTE_MINIMAL (csv.writer(f).writerow(fields) without the line terminator) *)
 Definition special (c : ch) := (c =? COMMA) || (c =? QUOTE) || is_nl c.
 Definition needs_quote (f : list ch) := existsb special f.
 Definition esc (f : list ch) : list ch := flat_map (fun c => if c =? QUOTE then [QUOTE; QUOTE] else [c]) f.
@@ -75,156 +79,10 @@ Fixpoint join (fs : list (list ch)) : list ch :=
   | [f] => render_field f
   | f :: rest => render_field f ++ COMMA :: join rest
   end.
+(* a lone empty field is written as two quote characters so that the record is not an empty line *)
 Definition render (fs : list (list ch)) : list ch :=
   match fs with [[]] => [QUOTE; QUOTE] | _ => join fs end.
 
-Definition no_nl (f : list ch) := forallb (fun c => negb (is_nl c)) f = true.
-
-Lemma run_app s l1 l2 : run s (l1 ++ l2) = run (run s l1) l2.
-Proof. unfold run. apply fold_left_app. Qed.
-
-Lemma run_cons s c l : run s (c :: l) = run (step s (Some c)) l.
-Proof. reflexivity. Qed.
-
-Lemma special_false c : special c = false -> (c =? COMMA) = false /\ (c =? QUOTE) = false /\ is_nl c = false.
-Proof. unfold special. intros H. apply orb_false_iff in H. destruct H as [H Hnl]. apply orb_false_iff in H. tauto. Qed.
-
-(* a bare field consumed from InField stays in InField *)
-Lemma run_bare_infield f : forall p a, needs_quote f = false ->
-  run (mk InField p a) f = mk InField (rev f ++ p) a.
-Proof.
-  induction f as [|c f IH]; intros p a H; [reflexivity|].
-  cbn [needs_quote existsb] in H. apply orb_false_iff in H. destruct H as [Hc Hf].
-  destruct (special_false c Hc) as (Hcomma & Hq & Hnl).
-  rewrite run_cons.
-  assert (E : step (mk InField p a) (Some c) = mk InField (c :: p) a).
-  { unfold step. cbn [state]. rewrite Hnl, Hcomma. reflexivity. }
-  rewrite E, IH by exact Hf. cbn [rev]. rewrite <- app_assoc. reflexivity.
-Qed.
-
-(* a non-empty bare field from StartField / StartRecord *)
-Lemma run_bare_start f a s0 : (s0 = StartField \/ s0 = StartRecord) -> f <> [] -> needs_quote f = false ->
-  run (mk s0 [] a) f = mk InField (rev f) a.
-Proof.
-  intros Hs Hne H. destruct f as [|c f]; [congruence|].
-  cbn [needs_quote existsb] in H. apply orb_false_iff in H. destruct H as [Hc Hf].
-  destruct (special_false c Hc) as (Hcomma & Hq & Hnl).
-  rewrite run_cons.
-  assert (E : step (mk s0 [] a) (Some c) = mk InField [c] a).
-  { destruct Hs as [-> | ->]; unfold step; cbn [state]; try rewrite Hnl; unfold start_field; rewrite Hnl, Hq, Hcomma; reflexivity. }
-  rewrite E, run_bare_infield by exact Hf. cbn [rev]. reflexivity.
-Qed.
-
-(* inside quotes: escaped content *)
-Lemma run_esc f : forall p a, run (mk InQuoted p a) (esc f) = mk InQuoted (rev f ++ p) a.
-Proof.
-  induction f as [|c f IH]; intros p a; [reflexivity|].
-  unfold esc. cbn [flat_map]. fold (esc f). destruct (c =? QUOTE) eqn:Eq.
-  - apply N.eqb_eq in Eq. subst c. cbn [app]. rewrite !run_cons.
-    assert (E : step (step (mk InQuoted p a) (Some QUOTE)) (Some QUOTE) = mk InQuoted (QUOTE :: p) a) by reflexivity.
-    rewrite E, IH. cbn [rev]. rewrite <- app_assoc. reflexivity.
-  - cbn [app]. rewrite run_cons.
-    assert (E : step (mk InQuoted p a) (Some c) = mk InQuoted (c :: p) a).
-    { unfold step. cbn [state]. rewrite Eq. reflexivity. }
-    rewrite E, IH. cbn [rev]. rewrite <- app_assoc. reflexivity.
-Qed.
-
-Lemma run_quoted f a s0 : (s0 = StartField \/ s0 = StartRecord) ->
-  run (mk s0 [] a) (QUOTE :: esc f ++ [QUOTE]) = mk QuoteInQuoted (rev f) a.
-Proof.
-  intros Hs. rewrite run_cons.
-  assert (E : step (mk s0 [] a) (Some QUOTE) = mk InQuoted [] a).
-  { destruct Hs as [-> | ->]; reflexivity. }
-  rewrite E, run_app, run_esc, run_cons. cbn [run fold_left]. rewrite app_nil_r. reflexivity.
-Qed.
-
-(* state after a rendered field: one of three "field complete" shapes, all of which save the same field on COMMA / newline *)
-Definition done_with (s : pst) (f : list ch) (a : list (list ch)) : Prop :=
-  acc s = a /\
-  ((state s = InField /\ rev (pend s) = f /\ f <> []) \/
-   (state s = QuoteInQuoted /\ rev (pend s) = f) \/
-   ((state s = StartField) /\ pend s = [] /\ f = [])).
-
-Lemma after_field f a s0 : s0 = StartField -> done_with (run (mk s0 [] a) (render_field f)) f a.
-Proof.
-  intros ->. unfold render_field. destruct (needs_quote f) eqn:E.
-  - rewrite run_quoted by (now left). split; [reflexivity|]. right; left. cbn. rewrite rev_involutive. auto.
-  - destruct f as [|c f'].
-    + split; [reflexivity|]. right; right. auto.
-    + rewrite run_bare_start; [|now left|discriminate|exact E]. split; [reflexivity|]. left. cbn [state pend]. rewrite rev_involutive. repeat split. discriminate.
-Qed.
-
-Lemma done_comma s f a : done_with s f a -> step s (Some COMMA) = mk StartField [] (f :: a).
-Proof.
-  intros [Ha [[Hs [Hp _]]|[[Hs Hp]|[Hs [Hp Hf]]]]]; destruct s as [s0 p a0]; cbn in *; subst; reflexivity.
-Qed.
-Lemma done_lf s f a : done_with s f a -> step s (Some LF) = mk EatCRNL [] (f :: a).
-Proof.
-  intros [Ha [[Hs [Hp _]]|[[Hs Hp]|[Hs [Hp Hf]]]]]; destruct s as [s0 p a0]; cbn in *; subst; reflexivity.
-Qed.
-
-Lemma run_join fs : forall a, fs <> [] ->
-  exists s, run (mk StartField [] a) (join fs) = s /\
-            exists f0 rest, fs = rest ++ [f0] /\ done_with s f0 (rev rest ++ a).
-Proof.
-  induction fs as [|f fs IH]; intros a Hne; [congruence|].
-  destruct fs as [|g fs'].
-  - cbn [join]. eexists; split; [reflexivity|]. exists f, []. split; [reflexivity|]. apply after_field. reflexivity.
-  - change (join (f :: g :: fs')) with (render_field f ++ COMMA :: join (g :: fs')).
-    rewrite run_app, run_cons.
-    rewrite (done_comma _ f a) by (apply after_field; reflexivity).
-    destruct (IH (f :: a)) as [s [Hs [f0 [rest [Hfs Hd]]]]]; [discriminate|].
-    exists s; split; [exact Hs|]. exists f0, (f :: rest). split; [cbn; rewrite Hfs; reflexivity|].
-    cbn [rev]. rewrite <- app_assoc. exact Hd.
-Qed.
-
-Lemma start_record_as_field l a :
-  l <> [] -> (forall c l', l = c :: l' -> is_nl c = false) ->
-  run (mk StartRecord [] a) l = run (mk StartField [] a) l.
-Proof.
-  intros Hne H. destruct l as [|c l']; [congruence|]. rewrite !run_cons. f_equal.
-  unfold step. cbn [state]. rewrite (H c l' eq_refl). reflexivity.
-Qed.
-
-Lemma render_field_head f c l' : render_field f = c :: l' -> is_nl c = false.
-Proof.
-  unfold render_field. destruct (needs_quote f) eqn:E.
-  - intros H. inversion H. reflexivity.
-  - intros ->. cbn [needs_quote existsb] in E. apply orb_false_iff in E. destruct E as [Hc _].
-    apply special_false in Hc. tauto.
-Qed.
-
-Lemma join_head fs c l' : join fs = c :: l' -> is_nl c = false.
-Proof.
-  destruct fs as [|f [|g fs']]; cbn [join]; [discriminate| apply render_field_head |].
-  destruct (render_field f) as [|d r] eqn:E.
-  - cbn [app]. intros H. inversion H. reflexivity.
-  - cbn [app]. intros H. inversion H; subst. eapply render_field_head. exact E.
-Qed.
-
-Lemma join_nonempty fs : fs <> [] -> fs <> [[]] -> join fs <> [].
-Proof.
-  destruct fs as [|f [|g fs']]; intros H1 H2; [congruence| |].
-  - cbn [join]. unfold render_field. destruct (needs_quote f); [discriminate|]. intros ->. congruence.
-  - cbn [join]. destruct (render_field f); discriminate.
-Qed.
-
-Theorem roundtrip fs : fs <> [] -> parse (render fs ++ [LF]) = Some fs.
-Proof.
-  intros Hne.
-  assert (Hcase : fs = [[]] \/ fs <> [[]]).
-  { destruct fs as [|[|c f] [|g r]]; try (right; discriminate); try (left; reflexivity). }
-  destruct Hcase as [-> | Hne2]; [reflexivity|].
-  assert (Hr : render fs = join fs).
-  { destruct fs as [|[|c f] [|g r]]; try reflexivity. congruence. }
-  rewrite Hr. unfold parse. rewrite run_app.
-  unfold init. rewrite start_record_as_field; [| apply join_nonempty; assumption | intros c l' E; eapply join_head; exact E].
-  destruct (run_join fs [] Hne) as [s [Hs [f0 [rest [Hfs Hd]]]]]. rewrite Hs.
-  rewrite run_cons. rewrite (done_lf s f0 _ Hd). cbn [run fold_left step state goto acc pend].
-  rewrite app_nil_r. cbn [rev]. rewrite rev_involutive. f_equal. symmetry. exact Hfs.
-Qed.
-Print Assumptions roundtrip.
-
-(* sanity: the executable model on a few lines *)
-Eval vm_compute in parse [97; 44; 34; 98; 44; 34; 34; 99; 34; 44; 44; 10].
-Eval vm_compute in (render [[97]; [98;44;34;99]; []; []], parse (render [[97]; [98;44;34;99]; []; []] ++ [LF])).
+(* the naive alternative the docstring of parse_ob_csv_line warns about (data can have commas within
+   JSON field dumps) *)
+Definition parse_naive (line : list ch) : list (list ch) := split_on COMMA (rstrip_nl line).
